@@ -240,6 +240,21 @@ impl Run {
         self.inner.lock().unwrap().new_violations.len()
     }
 
+    /// The violations recorded so far (known findings included), for engines that run as a
+    /// subprocess and hand their results to the parent check.
+    pub fn dump_violations(&self) -> Vec<Value> {
+        let g = self.inner.lock().unwrap();
+        let mut out: Vec<Value> = g
+            .new_violations
+            .values()
+            .map(|(n, v)| json!({"clause": v.clause, "trigger": v.trigger, "what": v.what, "witness": v.witness, "count": n}))
+            .collect();
+        for ((c, t), (n, w)) in g.known_hits.iter() {
+            out.push(json!({"clause": c, "trigger": t, "what": "(known finding)", "witness": w, "count": n}));
+        }
+        out
+    }
+
     pub fn machinery_error(&self, msg: &str) -> ! {
         eprintln!("MACHINERY-ERROR property={} {}", self.id, msg);
         println!("MACHINERY-ERROR property={} {}", self.id, msg);
